@@ -144,12 +144,13 @@ func c18expect(b string, v string) string {
 }
 
 func init() {
-	binVersions := []string{"v0.2.0", "v1.2.3", "1.2.3", "dev-main", "v1.2.3+build.5", "v2.1.0-rc.1", "v0.3.1+dirty", "2.0.4-rc.1+b7", "v3"}
+	// "!dirty" = linked with -X main.isGitDirty=true as well
+	binVersions := []string{"v0.2.0", "v1.2.3", "1.2.3", "dev-main", "v1.2.3+build.5", "v2.1.0-rc.1", "v0.3.1+dirty", "2.0.4-rc.1+b7", "v3", "v1.2.3!dirty", "v1.2.3+build.5!dirty", "2.1.0-rc.1+b7!dirty"}
 	Register(&Check{
 		ID:    "C18",
 		Level: "exploration",
 		Rule: "full grid of (build version B, declared version V) pairs: majors and minors in {0,1,2,3,9,10,11} x patches {0,7} x {release,-rc.1,+b5} on both axes (thorough: {0..5,9,10,11,99,100} x {0,7,12} x six suffix forms), " +
-			"plus non-semver builds, absent V, malformed V, and 8 real binaries linked with -X main.version (v-prefixed, with prerelease and build metadata); a case is non-trivial when B is a semantic version and V is present (the gate is actually evaluated); distinct = distinct (B,V) pair",
+			"plus non-semver builds, absent V, malformed V, and 11 real binaries linked with -X main.version / commit / date / builtBy / isGitDirty (v-prefixed, with prerelease and build metadata, from a dirty tree); a case is non-trivial when B is a semantic version and V is present (the gate is actually evaluated); distinct = distinct (B,V) pair",
 		Assumptions: []string{
 			"in-process cmd.NewBuildCmd(B, info) is what main.go calls after stripping a leading v from a valid v-prefixed version; the stripping itself is covered by the 4 linked binaries",
 			"versions of the short form MAJOR.MINOR (accepted by x/mod/semver, not by semver.org) are treated as unspecified and not generated",
@@ -158,7 +159,11 @@ func init() {
 		Prepare: func(p *Parent) error {
 			for i, v := range binVersions {
 				out := filepath.Join(p.Shared, fmt.Sprintf("gontainer-%d", i))
-				cmd := exec.Command("go", "build", "-o", out, "-ldflags", "-X main.version="+v, ".")
+				ld := "-X main.version=" + strings.TrimSuffix(v, "!dirty") + " -X main.commit=0123abc -X main.date=2024-01-02T03:04:05Z -X main.builtBy=verif"
+				if strings.HasSuffix(v, "!dirty") {
+					ld += " -X main.isGitDirty=true"
+				}
+				cmd := exec.Command("go", "build", "-o", out, "-ldflags", ld, ".")
 				cmd.Dir = p.Env.Repo
 				if b, err := cmd.CombinedOutput(); err != nil {
 					return fmt.Errorf("go build /repo: %v\n%s", err, b)
@@ -300,9 +305,9 @@ func init() {
 			}
 			// real binaries (main.go strips the v of a valid v-prefixed version; anything else is passed on)
 			for i, bv := range binVersions {
-				eff := bv
-				if strings.HasPrefix(bv, "v") && parseSemver(bv[1:]).ok {
-					eff = bv[1:]
+				eff := strings.TrimSuffix(bv, "!dirty") // a dirty work tree does not change which configurations the build accepts
+				if strings.HasPrefix(eff, "v") && parseSemver(eff[1:]).ok {
+					eff = eff[1:]
 				}
 				if bv == "v3" {
 					continue // short forms are unspecified
